@@ -55,6 +55,7 @@ class Ctx:
         self.universal = True       # run the universal monitors on every reply
         self.t0 = time.time()
         self._cross_seen = set()
+        self._tcp_tail = {}
 
     # ---- driver life cycle --------------------------------------------------
     def driver(self):
@@ -139,14 +140,25 @@ class Ctx:
             return
         if not self.universal:
             return
+        prior = b""
+        if r.kind == "R" or self.cfg.logger != "n":
+            # bytes delivered earlier on the same TCP flow (a STUN change-port request may span several segments)
+            if len(f) > 54 and f[12:14] in (b"\x08\x00", b"\x86\xdd"):
+                q = pkt.parse(f)
+                if q.get("flags") is not None and q.flags & 0x18 == 0x18 and q.data:
+                    k = (q.src, q.dst, q.sp, q.dp)
+                    prior = self._tcp_tail.get(k, b"")
+                    if len(self._tcp_tail) > 4000:
+                        self._tcp_tail.clear()
+                    self._tcp_tail[k] = (prior + q.data)[-2048:]
         if r.kind == "R":
             self.stats["replies"] += 1
-            for e in monitors.mirror(f, r.reply, self.cfg):
+            for e in monitors.mirror(f, r.reply, self.cfg, prior):
                 self._universal_hit("C03", e.split(" ")[0], e, f, hist_upto, r)
             for e in monitors.wellformed(r.reply):
                 self._universal_hit("C04", e.split(" ")[0], e, f, hist_upto, r)
         if self.cfg.logger != "n":
-            for e in monitors.logcheck(f, r, self.cfg):
+            for e in monitors.logcheck(f, r, self.cfg, prior):
                 self._universal_hit("C20", e.split(" ")[0], e, f, hist_upto, r)
 
     def _universal_hit(self, prop, key, what, f, hist_upto, r=None):
